@@ -3,7 +3,7 @@ structural clauses are decided: a path step into a value of the wrong kind and a
 negative index yield an error; errors travel negated; the wrapper clears the slice
 on error and builds it only from a non-negative start; ParseOnDemand parses the
 target only on success (DESIGN.md section 5/C10)."""
-from ..core import get_facts, strip, strip_expect, cval, show, walk, locline
+from ..core import get_facts, strip, strip_expect, cval, show, walk, locline, AnalysisBroken
 from ..e2_dom import Must
 from ..e3_interval import Intervals, table_value_ranges
 from . import c11
@@ -186,6 +186,177 @@ def clause_wrapper(facts, rep):
     rep.require(m >= 2, 'C10: parseOnDemandImpl instances: %d' % m)
 
 
+def clause_array_end(facts, rep):
+    """GetArrayElem counts a value as an element only after excluding that it is the closing bracket: on every path
+    from reading the element's first byte `c` to the separator scan that consumes the element, `c != ']'` is
+    established (an `if (c == ']')` exit or a switch arm for ']' that leaves).  Otherwise an index beyond the end of
+    an (e.g. empty) nested array walks on into the enclosing container instead of failing."""
+    n = 0
+    for f in facts.functions:
+        if f.cls_qn != SCANNER or f.short != 'GetArrayElem':
+            continue
+        rep.fn(f)
+        cvar = None
+        for bid, i, s in f.stmts():
+            s_ = strip(s)
+            if s_ is not None and s_.get('k') == 'decl':
+                for vd in s_['vars']:
+                    if vd.get('init') is not None and any(x.get('k') == 'call' and x.get('cname') in ('SkipSpaceSafe', 'skip_space_safe') for x in walk(vd['init'])):
+                        cvar = vd['id']
+        rep.require(cvar is not None, 'C10: element start byte of GetArrayElem not bound')
+        if cvar is None:
+            continue
+
+        def kill_stmt(s):
+            s_ = strip(s)
+            if s_ is not None and s_.get('k') == 'decl' and any(vd['id'] == cvar for vd in s_['vars']):
+                return ['nonclose']
+            return []
+
+        def gen_edge(b, cond, sense):
+            c = strip_expect(cond)
+            if isinstance(sense, tuple) and sense[0] == 'case':
+                if c is None or not any(x.get('k') == 'ref' and x.get('id') == cvar for x in walk(c)):
+                    return []
+                B = f.blocks[b]
+                def num(v):
+                    try:
+                        return int(v)
+                    except (TypeError, ValueError):
+                        return None
+                cases = [num(f.blocks[x].get('case')) for x in B['succs'] if x is not None]
+                if sense[1] is not None:
+                    return ['nonclose'] if num(sense[1]) not in (93, None) else []
+                return ['nonclose'] if 93 in cases else []      # default arm excludes ']' only if ']' has its own arm
+            neg = False
+            while c is not None and c.get('k') == 'un' and c['op'] == '!':
+                neg = not neg
+                c = strip_expect(c['e'])
+            if c is not None and c.get('k') == 'bin' and c['op'] in ('==', '!=') and cval(c['r']) == 93:
+                l = strip(c['l'])
+                if l is not None and l.get('k') == 'ref' and l.get('id') == cvar:
+                    is_close_when_true = (c['op'] == '==')
+                    if (sense != neg) != is_close_when_true:
+                        return ['nonclose']
+            return []
+        M = Must(f, gen_edge=gen_edge, kill_stmt=kill_stmt)
+        for bid, B in f.blocks.items():
+            items = list(enumerate(B['stmts']))
+            t = B.get('term')
+            if t and t.get('cond') is not None:
+                items.append(('cond', t['cond']))
+            for i, s in items:
+                for e in walk(s):
+                    if e.get('k') == 'call' and e.get('cname') == 'GetNextToken':
+                        st = M.at(bid, i)
+                        if st is None:
+                            continue
+                        n += 1
+                        rep.check('nonclose' in st, 'E2.array-end', f.qn, show(e)[:70], locline(e['loc']),
+                                  "a value is consumed as an array element only after its first byte was found not to be ']' "
+                                  '(an index past the end of a nested array must fail, not continue in the enclosing container)', facts.config)
+    rep.require(n >= 1, 'C10: element-consuming separator scan of GetArrayElem not found')
+
+
+def clause_key_decode(facts, rep):
+    """An escaped object key (SkipString reported escapes) is decoded before it is compared, unless its raw length
+    rules a match out.  Decoding never lengthens a key and shrinks it at most 6:1 (\\uXXXX -> 1 byte), so skipping the
+    decode is sound only when raw length < wanted length or raw length > 6 * wanted length.  The guards between
+    SkipString and the decode are evaluated over a grid of (raw length, wanted length)."""
+    from ..narrowing import _eval as ev1
+    n = 0
+    for f in facts.functions:
+        if f.cls_qn != SCANNER or f.short != 'GetOnDemand':
+            continue
+        # bind: skips := SkipString(...), sn := raw length, decode call
+        skips = sn = None
+        start = None
+        dec = None
+        for bid, i, s in f.stmts():
+            s_ = strip(s)
+            if s_ is None:
+                continue
+            if s_.get('k') == 'bin' and s_['op'] == '=' and strip(s_['l']).get('k') == 'ref':
+                r = strip(s_['r'])
+                if r is not None and r.get('k') == 'call' and r.get('cname') == 'SkipString':
+                    skips = strip(s_['l'])['id']
+                    start = (bid, i)
+            for e in walk(s_):
+                if e.get('k') == 'call' and e.get('cname') == 'parseStringInplace':
+                    dec = (bid, i)
+        if skips is None or dec is None:
+            continue
+        # the raw-length variable: assigned right after SkipString from pointer arithmetic, later compared with key.size()
+        for bid, i, s in f.stmts():
+            s_ = strip(s)
+            if s_ is not None and s_.get('k') == 'bin' and s_['op'] == '=' and strip(s_['l']).get('k') == 'ref' and strip(s_['l']).get('t') == 'long' and (bid, i) > start and bid == start[0]:
+                sn = strip(s_['l'])['id']
+                break
+        rep.require(sn is not None, 'C10: raw key length variable of GetOnDemand not bound')
+        if sn is None:
+            continue
+        rep.fn(f)
+
+        def ev(cond, env):
+            # key.size() -> env['K']
+            def sub(x):
+                if isinstance(x, dict):
+                    if x.get('k') == 'call' and x.get('cname') in ('size', 'length') and not x.get('args'):
+                        return {'k': 'lit', 'cv': str(env['K']), 't': 'unsigned long', 'loc': x.get('loc', '')}
+                    return {k: (sub(v) if isinstance(v, (dict, list)) else v) for k, v in x.items()}
+                if isinstance(x, list):
+                    return [sub(y) for y in x]
+                return x
+            return ev1(sub(cond), env)
+
+        def reaches(raw, want):
+            bid, i = start
+            i += 1
+            env = {skips: 2, sn: raw, 'K': want}
+            for _ in range(40):
+                B = f.blocks[bid]
+                for j in range(i, len(B['stmts'])):
+                    if (bid, j) == dec or any(e.get('k') == 'call' and e.get('cname') == 'parseStringInplace' for e in walk(B['stmts'][j])):
+                        return True
+                    s_ = strip(B['stmts'][j])
+                    if s_ is not None and s_.get('k') == 'bin' and s_['op'] == '=' and strip(s_['l']).get('id') in (skips, sn) and (bid, j) != start:
+                        if strip(s_['l']).get('id') == sn and env.get('sn_set'):
+                            return False
+                        env['sn_set'] = True
+                    if s_ is not None and s_.get('k') == 'call' and s_.get('cname') in ('SkipSpaceSafe',):
+                        return False
+                    if any(e.get('k') == 'call' and e.get('cname') in ('SkipSpaceSafe', 'memcmp') for e in walk(B['stmts'][j])):
+                        return False        # already at the comparison: the decode was skipped
+                t = B.get('term')
+                succs = B['succs']
+                if t and t.get('cond') is not None and len(succs) == 2 and t['cls'] != 'SwitchStmt':
+                    if any(e.get('k') == 'call' and e.get('cname') in ('SkipSpaceSafe', 'memcmp') for e in walk(t['cond'])):
+                        return False
+                    try:
+                        v = bool(ev(t['cond'], env))
+                    except KeyError as ex:
+                        raise AnalysisBroken('C10: guard %s between SkipString and the key decode is not a function of (escape flag, raw length, wanted length): %s' % (show(t['cond']), ex))
+                    nxt = succs[0] if v else succs[1]
+                else:
+                    nn = [x for x in succs if x is not None]
+                    nxt = nn[0] if len(nn) == 1 else None
+                if nxt is None:
+                    return False
+                bid, i = nxt, 0
+            raise AnalysisBroken('C10: no decision reached between SkipString and the key decode')
+        bad = []
+        cnt = 0
+        for raw in list(range(0, 80)) + [200, 1000]:
+            for want in list(range(0, 40)) + [100]:
+                cnt += 1
+                if not reaches(raw, want) and not (raw < want or raw > 6 * want):
+                    bad.append((raw, want))
+        n += 1
+        rep.check(not bad, 'E2.key-decode', f.qn, 'escaped keys are decoded before comparison for every (raw, wanted) length pair that can match (%d pairs)' % cnt, f.loc,
+                  'decode skipped for (raw length, wanted length) = %s although a %d-byte escaped key can decode to %d bytes' % (bad[:3], bad[0][0] if bad else 0, bad[0][1] if bad else 0), facts.config)
+    rep.require(n >= 1, 'C10: key decode site of GetOnDemand not found')
+
+
 def run(rep, tier):
     configs = ['K1'] if tier == 'quick' else ['K1', 'K3', 'K4']
     for cfg in configs:
@@ -195,8 +366,10 @@ def run(rep, tier):
         clause_negative_index(facts, rep)
         c11.clause_c(facts, rep)
         clause_wrapper(facts, rep)
+        clause_array_end(facts, rep)
+        clause_key_decode(facts, rep)
     rep.trust('clang 14 front end')
     rep.assumptions += [
-        'decides only: wrong-kind step and negative index yield an error, errors are negated, slice cleared on error, target parsed only on success',
+        'decides only: wrong-kind step and negative index yield an error, an index past the end of an array is noticed at the closing bracket, escaped keys are decoded before comparison whenever they could match, errors are negated, slice cleared on error, target parsed only on success',
         'does NOT decide (the bulk of the property) that the selected member/element agrees with the DOM: a differential semantic statement with no structural rule that does not mirror the code',
     ]
